@@ -621,6 +621,11 @@ class IterKeysSpec(FacadeSpec):
         if not isinstance(n, ast.For):
             return None
         objs = fresh('objects_under_prefix', SeqV); st.g['objs'] = objs
+        loopseq = objs
+        if ex.is_kind(st, itv, 'islice'):
+            # itertools.islice(listing, n): the loop sees only the first n listed objects
+            stop = st.rd(itv, 'stop'); itv = st.rd(itv, 'src'); loopseq = fresh('sliced_objects', SeqV)
+            st.assume(z3.PrefixOf(loopseq, objs)); st.assume(z3.Length(loopseq) == z3.If(stop == NONE, z3.Length(objs), z3.If(Val.iv(stop) < z3.Length(objs), z3.If(Val.iv(stop) < 0, 0, Val.iv(stop)), z3.Length(objs))))
         sd, ed = st.lookup('start_date'), st.lookup('end_date'); cf = st.lookup('content_filter'); lim = st.lookup('limit'); pfx = st.lookup('prefix')
         src = st.rd(itv, 'of_collection') if ex.is_kind(st, itv, 'list') else (st.rd(st.rd(itv, 'src'), 'of_collection') if ex.is_kind(st, itv, 'iterator') else itv)
         st.g['listing_prefix_ok'] = st.rd(src, 'prefix') == pfx
@@ -647,14 +652,16 @@ class IterKeysSpec(FacadeSpec):
             return sq
 
         def inv(s, done):
+            # stated over the yielded keys (the abstraction); a running counter of the code, if there is one, must agree with it
             c = s.lookup('count')
-            return z3.And(ykeys(s) == REL(done), Val.is_i(c), Val.iv(c) == z3.Length(REL(done)), z3.Or(lim == NONE, Val.iv(c) <= Val.iv(lim)))
+            base = z3.And(ykeys(s) == REL(done), z3.Or(lim == NONE, z3.Length(REL(done)) <= Val.iv(lim)))
+            return base if c is None else z3.And(base, Val.is_i(c), Val.iv(c) == z3.Length(REL(done)))
 
         def havoc_state(s):
             s.g['ykeys'] = fresh('ykeys', SeqV); s.g['ybase'] = len(s.g.get('yielded', []))
         st.g['ykeys'] = z3.Empty(SeqV); st.g['ybase'] = len(st.g.get('yielded', [])); st.g['ykeys_fn'] = ykeys
         st.assume(REL(z3.Empty(SeqV)) == z3.Empty(SeqV))
-        return dict(seq=objs, bind=bind, havoc=[n.target.id, 'count', 'is_relevant'], havoc_state=havoc_state, inv=inv, name='loop.objects')
+        return dict(seq=loopseq, bind=bind, havoc=[n.target.id, 'count', 'is_relevant'], havoc_state=havoc_state, inv=inv, name='loop.objects')
 
 
 def facade_iter_keys(props=None):
